@@ -1,18 +1,107 @@
 (* C20 -- File patterns resolve to exactly the matching files.
-   Only statements, each closed by [exact] of a lemma from PV.Proofs.Glob*. *)
-From Coq Require Import NArith List Bool String Sorted Permutation.
+   Only statements, each closed by [exact] of a lemma from PV.Proofs.Glob*.
+
+   Vocabulary (PV.Model.Glob / GlobSpec): a file system [fs] is a current directory and a finite list of files
+   (absolute component lists); [wf_fs] says every component is a real name without '/'.  [cname fs s f]: the
+   string [s] is a canonical way of writing the path of file [f] (absolute, './'-relative or bare relative).
+   [eff_expr e]: the item after the scheme prefix is removed and './' is put in front of an item without
+   separator or with a wildcard in its first component -- the text the walked paths are matched against.
+   [accepts x s]: s matches x, or matches x ++ "/part*" (dataset rule). *)
+From Coq Require Import NArith List Bool Ascii String Sorted Permutation.
 Require Import PV.Gen.FsDispatch PV.Model.Glob PV.Model.GlobSpec.
-Require Import PV.Proofs.GlobMatch PV.Proofs.GlobSort.
+Require Import PV.Proofs.GlobMatch PV.Proofs.GlobSort PV.Proofs.GlobPath PV.Proofs.GlobResolve.
 Import ListNotations.
 Open Scope N_scope.
 
-(* the matcher used on every walked path is the wildcard language of the property:
-   '*' any run of characters (the separator included), '?' any single character *)
+(* ---- the matcher is the wildcard language of the property: '*' any run of characters (the separator
+        included), '?' any single character, for every pattern and every string *)
 Theorem C20_gmatch_spec : forall p s, gmatch p s = true <-> matches p s.
 Proof. exact gmatch_spec. Qed.
 
-(* readers hand the resolved names to the tasks in sorted path order: a sorted permutation of what
-   File.resolve_filenames returned, and there is only one such list *)
+(* ---- the walk-root optimisation loses no match *)
+(* strings: whatever the effective expression or its dataset variant matches lies below the directory
+   handed to os.walk (after the literal-prefix, './' and dirname rules), for EVERY item *)
+Theorem C20_prefix_sound : forall e0 s,
+  accepts (fst (plan e0)) s = true -> exists rest, s = disp (snd (plan e0)) rest.
+Proof. exact prefix_sound. Qed.
+(* file system: every canonical name of an existing file that lies textually below a walk root is produced
+   by the walk from that root *)
+Theorem C20_walk_complete : forall fs R rest s f,
+  wf_fs fs = true -> In f (files fs) -> cname fs s f -> R <> [] -> s = disp R rest -> In s (walk fs R).
+Proof. exact walk_complete. Qed.
+
+(* ---- an item resolves to exactly the existing files whose path matches it *)
+(* nothing but existing files, each matching the item (or being the item itself when it names a file) *)
+Theorem C20_resolve_sound : forall fs e s,
+  wf_fs fs = true -> In s (resolve_local fs e) ->
+  isfile fs s = true /\
+  (if isfile fs (strip_scheme e) then s = strip_scheme e else accepts (eff_expr e) s = true).
+Proof. exact resolve_sound. Qed.
+(* every existing file whose canonical name matches is resolved -- full since fixes 94671f3 and 9d8ea91
+   (before them this failed for items with a wildcard in the first relative component) *)
+Theorem C20_resolve_complete : forall fs e s f,
+  wf_fs fs = true -> isfile fs (strip_scheme e) = false ->
+  In f (files fs) -> cname fs s f -> accepts (eff_expr e) s = true -> In s (resolve_local fs e).
+Proof. exact resolve_complete. Qed.
+Theorem C20_resolve_exact : forall fs e s f,
+  wf_fs fs = true -> isfile fs (strip_scheme e) = false -> In f (files fs) -> cname fs s f ->
+  (In s (resolve_local fs e) <-> accepts (eff_expr e) s = true).
+Proof. exact resolve_exact. Qed.
+Theorem C20_resolve_file_shortcut : forall fs e,
+  isfile fs (strip_scheme e) = true -> resolve_local fs e = [strip_scheme e].
+Proof. exact resolve_file_shortcut. Qed.
+(* each file at most once per item *)
+Theorem C20_resolve_nodup : forall fs e,
+  wf_fs fs = true -> NoDup (files fs) -> NoDup (resolve_local fs e).
+Proof. exact resolve_nodup. Qed.
+
+(* ---- dataset directories: partition files only, never the _SUCCESS marker *)
+Theorem C20_part_rule : forall d s, literal d ->
+  (gmatch (d ++ local_part_suffix) s = true <-> exists r, s = d ++ part_lit ++ r).
+Proof. exact part_rule_spec. Qed.
+Theorem C20_marker_excluded : forall d, literal d -> gmatch (d ++ local_part_suffix) (d ++ success_lit) = false.
+Proof. exact marker_excluded. Qed.
+Theorem C20_dataset_dir_parts_only : forall fs e s,
+  wf_fs fs = true -> literal (strip_scheme e) -> isfile fs (strip_scheme e) = false ->
+  In s (resolve_local fs e) ->
+  isfile fs s = true /\ (exists r, s = with_sep (strip_scheme e) ++ part_lit ++ r) /\
+  s <> with_sep (strip_scheme e) ++ success_lit.
+Proof. exact dataset_dir_parts_only. Qed.
+Theorem C20_dataset_dir_parts_resolved : forall fs e s f r,
+  wf_fs fs = true -> literal (strip_scheme e) -> isfile fs (strip_scheme e) = false ->
+  In f (files fs) -> cname fs s f -> s = with_sep (strip_scheme e) ++ part_lit ++ r ->
+  In s (resolve_local fs e).
+Proof. exact dataset_dir_parts_resolved. Qed.
+
+(* ---- an item matching nothing contributes no files *)
+Theorem C20_nomatch_empty : forall fs e,
+  wf_fs fs = true -> isfile fs (strip_scheme e) = false ->
+  (forall s, isfile fs s = true -> accepts (eff_expr e) s = false) -> resolve_local fs e = [].
+Proof. exact nomatch_empty. Qed.
+
+(* ---- comma-separated items: the concatenation of what the (blank-stripped) items resolve to *)
+Theorem C20_comma_union : forall fs items,
+  items <> [] -> Forall (fun it => forall c, In c it -> c <> c_comma) items ->
+  Forall (fun it => get_fs (strip it) = cls_local) items ->
+  resolve_all fs (join c_comma items) = Names (flat_map (fun it => resolve_local fs (strip it)) items).
+Proof. exact comma_union. Qed.
+Theorem C20_comma_union_in : forall fs items s,
+  items <> [] -> Forall (fun it => forall c, In c it -> c <> c_comma) items ->
+  Forall (fun it => get_fs (strip it) = cls_local) items ->
+  exists l, resolve_all fs (join c_comma items) = Names l /\
+            (In s l <-> exists it, In it items /\ In s (resolve_local fs (strip it))).
+Proof. exact comma_union_in. Qed.
+(* items without '://' and items starting with file:// go to the local file system
+   (with the scheme table regenerated from fileio/fs/__init__.py) *)
+Theorem C20_local_without_scheme : forall it, before_first scheme_sep it = None -> get_fs it = cls_local.
+Proof. exact get_fs_no_scheme. Qed.
+Theorem C20_local_file_scheme : forall x, get_fs (local_scheme_prefix ++ x) = cls_local.
+Proof. exact get_fs_file_scheme. Qed.
+Theorem C20_file_scheme_stripped : forall x, strip_scheme (local_scheme_prefix ++ x) = x.
+Proof. exact strip_scheme_prefix. Qed.
+
+(* ---- readers hand the resolved names to the tasks in sorted path order: a sorted permutation of what
+        File.resolve_filenames returned, and there is only one such list *)
 Theorem C20_sorted_order : forall fs e l,
   read_order fs e = Names l ->
   exists r, resolve_all fs e = Names r /\ Permutation r l /\ StronglySorted str_le l.
@@ -20,3 +109,35 @@ Proof. exact read_order_sorted. Qed.
 Theorem C20_sorted_order_unique : forall l1 l2,
   Permutation l1 l2 -> StronglySorted str_le l1 -> StronglySorted str_le l2 -> l1 = l2.
 Proof. exact sorted_unique. Qed.
+
+(* ---- non-vacuity and sanity: the tree  a.txt  d/x.txt  data/x.txt  out/{_SUCCESS,part-00000,part-00001} *)
+Definition S (s : string) : str := map (fun a => N_of_ascii a) (list_ascii_of_string s).
+Definition ex_fs : fsys :=
+  {| cwd := [S "w"];
+     files := [[S "w"; S "a.txt"]; [S "w"; S "d"; S "x.txt"]; [S "w"; S "data"; S "x.txt"];
+               [S "w"; S "out"; S "_SUCCESS"]; [S "w"; S "out"; S "part-00000"]; [S "w"; S "out"; S "part-00001"]] |}.
+
+Example ex_wf : wf_fs ex_fs = true /\ NoDup (files ex_fs).
+Proof. split. reflexivity. repeat constructor; simpl; intuition discriminate. Qed.
+Example ex_dataset : resolve_local ex_fs (S "out") = [S "./out/part-00000"; S "./out/part-00001"].
+Proof. vm_compute. reflexivity. Qed.
+Example ex_dataset_hyps : literal (strip_scheme (S "out")) /\ isfile ex_fs (strip_scheme (S "out")) = false.
+Proof. split; [|reflexivity]. intros c H. vm_compute in H. intuition (subst; reflexivity). Qed.
+Example ex_first_component_wildcard :
+  resolve_local ex_fs (S "d*/x.txt") = [S "./d/x.txt"; S "./data/x.txt"] /\
+  resolve_local ex_fs (S "*/x.txt") = [S "./d/x.txt"; S "./data/x.txt"] /\
+  resolve_local ex_fs (S "da?a/x.txt") = [S "./data/x.txt"].
+Proof. vm_compute. repeat split. Qed.
+Example ex_cname : cname ex_fs (S "./data/x.txt") [S "w"; S "data"; S "x.txt"] /\
+                   accepts (eff_expr (S "d*/x.txt")) (S "./data/x.txt") = true.
+Proof. split; [|reflexivity]. exists LDot, [S "data"; S "x.txt"]. repeat split. discriminate. Qed.
+Example ex_file_and_scheme :
+  resolve_local ex_fs (S "file://a.txt") = [S "a.txt"] /\ resolve_local ex_fs (S "/w/out/part-0000?") = [S "/w/out/part-00000"; S "/w/out/part-00001"] /\
+  resolve_local ex_fs (S "nonexistent*") = [] /\ resolve_local ex_fs (S "out/_*") = [S "out/_SUCCESS"].
+Proof. vm_compute. repeat split. Qed.
+Example ex_comma :
+  read_order ex_fs (S " out , a.txt,d/*") = Names [S "./out/part-00000"; S "./out/part-00001"; S "a.txt"; S "d/x.txt"] /\
+  resolve_all ex_fs (S "a.txt,foo://x") = Fail "NotImplementedError".
+Proof. vm_compute. split; reflexivity. Qed.
+Example ex_match : matches (S "d*/?.txt") (S "data/x.txt").
+Proof. apply gmatch_spec. reflexivity. Qed.
